@@ -6,6 +6,7 @@
 //!        writes per run the event log and the obligations evaluated concretely
 mod hist;
 mod mon;
+mod oracle;
 mod props;
 mod sx;
 mod tpl;
